@@ -135,16 +135,27 @@ DF = "(len(failures) - old(len(failures)))"
 DE = "(len(errors) - old(len(errors)))"
 ONE_ERROR = DF + " == 0 and " + DE + " == 1"
 
+def kill_rule(E, st, node, args, kws, k):
+    from pyvc.vals import VBool, NONE
+    st.ghost['killed'] = VBool(z3.BoolVal(True))
+    return k(st, NONE)
+kill_rule.__name__ = 'child.kill(): the child is dead from here on (ghost G.killed)'
+kill_rule.modifies = ['G.killed']
+
+# the parent reaps a child only after it has killed it: the final wait can then not block on a child that keeps running with
+# its pipes closed (a safety clause standing in for "the parent does not hang in the clean-up")
+REAP_AFTER_KILL = ["G.killed"]
+
 SPAWN = {
     'merge': True,
     'property': ['C07', 'C02', 'C03', 'C06', 'C12'],
     'params': {'result': 'Rec[SubResult]', 'script_parts': 'Opt[List[Str]]', 'options': 'Rec[Options]',
                'features': 'List[Feature]', 'layer_name': 'Str', 'layer': 'Layer', 'failures': LISTS, 'errors': LISTS,
                'skipped': LISTS, 'resume_number': 'int', 'cwd': 'Any'},
-    'ghost': {'errlines': 'List[Line]', 'got_lines': 'bool'},
+    'ghost': {'errlines': 'List[Line]', 'got_lines': 'bool', 'killed': 'bool'},
     'locals': {'stderr_buf': 'List[Bytes]', 'new_failures': LISTS, 'new_errors': LISTS, 'args': 'List[Str]'},
-    'requires': ["not G.got_lines", "len(options.original_testrunner_args) >= 1"],
-    'modifies': ['result.num_ran', 'result.done', 'failures', 'errors', 'G.errlines', 'G.got_lines'],
+    'requires': ["not G.got_lines", "len(options.original_testrunner_args) >= 1", "not G.killed"],
+    'modifies': ['result.num_ran', 'result.done', 'failures', 'errors', 'G.errlines', 'G.got_lines', 'G.killed'],
     'ensures': [
         "result.done",                                                      # P3: on every path
         # P2 + "could not be started / died / delivered nothing": exactly one error for the layer, no names
@@ -166,6 +177,7 @@ SPAWN = {
     'raises': {},           # P2: runs as a thread target, nothing may escape
     'callsites': {
         # C03: the child is re-invoked with '--resume-layer <name> <n>', the parent's defaults and its original arguments
+        'child.communicate': REAP_AFTER_KILL, 'child.wait': REAP_AFTER_KILL,
         'subprocess.Popen': [
             "has_kw_cwd", "_kw_cwd == cwd",             # C03: started in the directory handed down from run_internal (startdir_c03)
             "args[0] == executable()",
@@ -237,7 +249,7 @@ SPAWN = {
         'map': map_int_rule,
         'next_fail.strip().decode': decode_rule, 'next_err.strip().decode': decode_rule,
         'line.decode': 'pure:Str',
-        'child.kill': 'NOEFFECT', 'child.communicate': 'NOEFFECT',
+        'child.kill': kill_rule, 'child.communicate': 'NOEFFECT', 'child.wait': 'NOEFFECT',
         "'\\n'.join": 'fresh:Str', "' '.join": 'fresh:Str',
     },
     'expr_rules': {'e.errno == errno.EINTR': 'fresh:bool', 'str(e)': 'fresh:Str', 'str(resume_number)': 'fresh:Str'},
